@@ -132,7 +132,11 @@ def gen_cases(ctx):
     cases = []
     for _ in range(ctx.n(120, 1500)):
         cfg = G.random_config(rng, small=True)
-        seed = rng.randrange(10**6) if rng.random() < 0.6 else tuple(rng.randrange(256) for _ in range(rng.randint(1, 12)))
+        if rng.random() < 0.35:
+            cfg = G.second_pair(rng, cfg)
+        u = rng.random()
+        # seed 0 is a seed like any other
+        seed = 0 if u < 0.08 else rng.randrange(10**6) if u < 0.6 else tuple(rng.randrange(256) for _ in range(rng.randint(1, 12)))
         cases.append((cfg, seed, rng.choice([0, 1, 2, 3, 5, 8]), rng.random() < 0.5))
     return cases
 
